@@ -210,6 +210,10 @@ class Gen:
         if "params" in self.f and self.rng.random() < 0.7:
             pk = self.rng.choice(["UInt", "UInt", "Int"])
             params.append((self.names.snake(), pk, self.rng.choice([4, 8, 8, 16])))
+        enum_param = None
+        if "params" in self.f and self.enums and self.rng.random() < 0.35:
+            enum_param = self.rng.choice(self.enums)
+            params.append((self.names.snake(), enum_param.name, 0))
         fields = []
         off = 0
         ints = []
@@ -229,9 +233,16 @@ class Gen:
             nb = bits // 8
             fields.append(D.Field(self.names.snake(), D.Const(off), D.Const(nb), D.StructRef(bt.name), byte_order=self.order_attr(nb)))
             off += nb
-        if params and ints and "virtuals" in self.f:
+        if enum_param is not None:
+            # the enum parameter selects a virtual field and, through a virtual, is readable from outside
+            vname, vval = self.rng.choice(enum_param.values)
+            pn = params[-1][0]
+            fields.append(D.Field(self.names.snake(), expr=D.Const(self.rng.randint(0, 50)),
+                                  cond=D.Bin(self.rng.choice(["==", "!="]), D.Param(pn), D.EnumConst(enum_param.name, vname, vval))))
+            fields.append(D.Field(self.names.snake(), expr=D.Bin("==", D.Param(pn), D.EnumConst(enum_param.name, vname, vval))))
+        if params and params[0][1] in ("UInt", "Int") and ints and "virtuals" in self.f:
             fields.append(D.Field(self.names.snake(), expr=D.Bin("+", D.Ref(ints[0].name), D.Param(params[0][0]))))
-        if params and self.rng.random() < 0.4 and "cond" in self.f:
+        if params and params[0][1] in ("UInt", "Int") and self.rng.random() < 0.4 and "cond" in self.f:
             # a conditional *virtual* keeps the struct fixed-size
             lo, hi = param_bounds(params[0])
             k = self.rng.randint(lo, hi)
@@ -300,6 +311,13 @@ class Gen:
             return [f for f in fields if not f.is_virtual]
 
         def arg_for(param):
+            if param[1] not in ("UInt", "Int"):
+                e = self.enum_by_name(param[1])
+                same = [n for n, ee in enum_fields if ee is e]
+                if same and rng.random() < 0.6:
+                    return D.Ref(rng.choice(same))
+                vn, vv = rng.choice(e.values)
+                return D.EnumConst(e.name, vn, vv)
             lo, hi = param_bounds(param)
             cands = [s for s in ints if lo <= s.lo and s.hi <= hi]
             if cands and rng.random() < 0.7:
